@@ -99,11 +99,20 @@ class Printer:
         s["line"] = self.emit(level, s["name"])
         if s.get("ins"):
             self.emit(level + 1, "In")
-            for p in s["ins"]:
+            skip = False
+            for n, p in enumerate(s["ins"]):
+                if skip:
+                    skip = False
+                    continue
+                nxt = s["ins"][n + 1] if n + 1 < len(s["ins"]) else None
                 if isinstance(p, str):
                     self.emit(level + 2, p)
                 elif isinstance(p, list):
                     self.emit(level + 2, path_text(p))
+                elif isinstance(nxt, (str, list)) and (len(self.lines) + len(s["name"])) % 3 == 0:
+                    # layout variant the grammar allows: the next parameter on the line of a struct literal
+                    self.emit(level + 2, p["lit"] + " " + json.dumps(p["json"]) + " " + (nxt if isinstance(nxt, str) else path_text(nxt)))
+                    skip = True
                 else:
                     self.emit(level + 2, p["lit"])
                     self.emit(level + 3, json.dumps(p["json"]))
